@@ -25,8 +25,8 @@ inductive Inst where
   | op (key : String) (reads writes clobbers : List Loc) (mem ev : Bool)
   /-- exact copy `dst := src` (`size` = bytes copied; only used by the validator's width guard) -/
   | move (dst src : Loc) (size : Nat)
-  /-- exchange of two locations -/
-  | swap (a b : Loc)
+  /-- exchange of two locations (`size` = bytes exchanged; only used by the validator's width guard) -/
+  | swap (a b : Loc) (size : Nat)
   | jmp (t : Nat)
   /-- conditional jump: taken iff the uninterpreted predicate `key` holds of the values read -/
   | jcc (key : String) (reads : List Loc) (t : Nat)
@@ -79,7 +79,7 @@ def step (I : Interp Val) (prog : Prog) (s : State Val) : Step Val :=
               mem := if mem then I.evalMem key ins else s.mem }
             (if ev then some ⟨key, ins⟩ else none)
   | some (.move d src _) => .next { s with pc := s.pc + 1, regs := upd s.regs d (s.regs src) } none
-  | some (.swap a b) => .next { s with pc := s.pc + 1, regs := upd (upd s.regs a (s.regs b)) b (s.regs a) } none
+  | some (.swap a b _) => .next { s with pc := s.pc + 1, regs := upd (upd s.regs a (s.regs b)) b (s.regs a) } none
   | some (.jmp t) => .next { s with pc := t } none
   | some (.jcc key rs t) => .next { s with pc := if I.cond key (rs.map s.regs) then t else s.pc + 1 } none
   | some (.jtab key rs ts) =>
@@ -139,7 +139,9 @@ def moveE (vsz : Loc → Nat) (E : Rel) (dst src size : Nat) : Rel :=
   ((E.filter (fun x => x.1 == src && vsz x.2 ≤ size)).map (fun x => (dst, x.2))) ++ E.filter (fun x => x.1 != dst)
 
 def swapLoc (a b l : Loc) : Loc := if l = a then b else if l = b then a else l
-def swapE (E : Rel) (a b : Loc) : Rel := E.map (fun x => (swapLoc a b x.1, x.2))
+/-- inserted exchange of `size` bytes (width guard: a virtual register wider than that is forgotten) -/
+def swapE (vsz : Loc → Nat) (E : Rel) (a b : Loc) (size : Nat) : Rel :=
+  (E.filter (fun x => !(x.1 == a || x.1 == b) || vsz x.2 ≤ size)).map (fun x => (swapLoc a b x.1, x.2))
 
 /-- a move of the virtual-register program that has no counterpart (deleted by the rewriter) -/
 def preMoveE (E : Rel) (dP sP : Loc) : Rel :=
@@ -171,7 +173,7 @@ def checkTwin (cert : Cert) (p q : Nat) (E : Rel) : Inst → Inst → Bool
 /-- only the allocated program steps (inserted move / load / save / swap / jump / frame instruction) -/
 def checkPostOnly (vsz : Loc → Nat) (cert : Cert) (p q d : Nat) (E : Rel) : Inst → Bool
   | .move dQ sQ sz => okSucc cert p (q + 1) (moveE vsz E dQ sQ sz) (some d)
-  | .swap a b => okSucc cert p (q + 1) (swapE E a b) (some d)
+  | .swap a b sz => okSucc cert p (q + 1) (swapE vsz E a b sz) (some d)
   | .jmp t => okSucc cert p t E (some d)
   | .op _ _ ws cs false false => okSucc cert p (q + 1) (kill E (ws ++ cs) []) (some d)
   | _ => false
